@@ -119,6 +119,13 @@ class Axes:
         return None
 
     def _seed(self):
+        self._shape_indices: Dict[int, Set[int]] = {}
+        for t in self.terms.values():
+            if t.kind == "index" and t.args[0].kind == "attr" and t.args[0].args[1] == "shape" and t.args[1].kind == "const" \
+                    and isinstance(t.args[1].args[0], int):
+                self._shape_indices.setdefault(t.args[0].id, set()).add(t.args[1].args[0])
+            elif t.kind == "proj" and t.args[0].kind == "attr" and t.args[0].args[1] == "shape" and isinstance(t.args[1], int):
+                self._shape_indices.setdefault(t.args[0].id, set()).add(t.args[1])
         for t in list(self.terms.values()):
             k = t.kind
             if k == "index":
@@ -202,8 +209,15 @@ class Axes:
                 self.ext(items[1], 1, "second extent in " + why)
 
     def _is_2d(self, g: T) -> bool:
-        n = self.vfg.shape_unpack.get(self.vfg.mk_attr(g, "shape").id) if g is not None else None
-        return n == 2
+        """g is known to be 2-D: its .shape was unpacked into two names, or the code itself uses .shape[-1] and
+        .shape[-2] of it and never a third axis."""
+        if g is None:
+            return False
+        sh = self.vfg.mk_attr(g, "shape")
+        if self.vfg.shape_unpack.get(sh.id) == 2:
+            return True
+        used = self._shape_indices.get(sh.id)
+        return bool(used) and {-1, -2} <= used and not (used - {-1, -2, 0, 1})
 
     def _name(self, g: T) -> str:
         from .terms import show
